@@ -2,6 +2,7 @@ import WhVerif.Util.Proto
 import WhVerif.Model.C10
 import WhVerif.Model.C10Regions
 import WhVerif.Model.C10Run
+import WhVerif.Model.C10Detect
 namespace WhVerif.Driver.C10
 open Lean WhVerif.Proto WhVerif.C10
 
@@ -182,7 +183,83 @@ def runAnswer (cfg : Config) (contigs : List (ContigIn (Nat × Nat))) : Json :=
       ("tail", Json.bool cfg.regions.isNone),
       ("ambiguous", ofList (ofList Json.str) (ambiguousNames cfg contigs))]
 
+/-! ### `c10.detect`: the reads haplotag sees (Model/C10Detect.lean = C06's reader as `run_haplotag` configures it) -/
+
+def dCigar? (j : Json) : Option C06.Cigar := do
+  (← asArr? j).mapM (fun p => do
+    match ← natList? p with
+    | [a, b] => some (a, b)
+    | _ => none)
+
+def dOpt {α} (f : Json → Option α) (j : Json) (k : String) : Option (Option α) :=
+  match j.getObjVal? k with
+  | .ok Json.null => some none
+  | .ok v => (f v).map some
+  | _ => some none
+
+def dAln? (sid : Nat) (j : Json) : Option C06.Aln := do
+  some ⟨← getStr? j "name", ← getNat? j "flag", ← getNat? j "mapq", ← dOpt asStr? j "rg", ← getNat? j "start",
+        ← dOpt dCigar? j "cigar", (← dOpt asStr? j "query").map String.toList, ← dOpt natList? j "quals",
+        (getStr? j "bx").getD "", (getInt? j "hp").getD (-1), ← dOpt asInt? j "ps", sid⟩
+
+def dSource? (sid : Nat) (j : Json) : Option C06.Source := do
+  let rgs ← (← getList? j "rgs").mapM (fun g => do
+    match ← asArr? g with
+    | [Json.str i, Json.null] => some (i, none)
+    | [Json.str i, Json.str sm] => some (i, some sm)
+    | _ => none)
+  let alns ← (← getList? j "alns").mapM (dAln? sid)
+  some ⟨rgs, alns⟩
+
+def dRegion? (j : Json) : Option C06.Region := do
+  match ← asArr? j with
+  | [a, Json.null] => some (← asNat? a, none)
+  | [a, b] => some (← asNat? a, some (← asNat? b))
+  | _ => none
+
+def dVariant? (j : Json) : Option C06.Variant := do
+  match ← asArr? j with
+  | [p, r, a] =>
+    let alts ← (← asArr? a).mapM asStr?
+    some ⟨← asNat? p, (← asStr? r).toList, alts.map String.toList⟩
+  | _ => none
+
+def dFixes (j : Json) : C06.Fixes :=
+  let l := match getList? j "asis" with | some l => l.filterMap asStr? | none => []
+  ⟨!l.contains "F12", !l.contains "F13", !l.contains "F14", !l.contains "F15", !l.contains "F16"⟩
+
+def rerrName : C06.RErr → String
+  | .det .index => "IndexError" | .det .assertion => "AssertionError" | .det .value => "ValueError"
+  | .typeError => "TypeError" | .keyError => "KeyError" | .sampleNotFound => "SampleNotFoundError" | .psValue => "ValueError"
+
+def detectAnswer (j : Json) : Json :=
+  match (getList? j "sources").bind (fun l => (C06.enumFrom 0 l).mapM (fun p => dSource? p.1 p.2)), getBool? j "ignoreRG", getStr? j "sample",
+    dOpt (fun v => (asArr? v).bind (·.mapM dRegion?)) j "regions", (getList? j "variants").bind (·.mapM dVariant?), dOpt asStr? j "reference" with
+  | some srcs, some irg, some sample, some regions, some vs, some rf =>
+    let fx := dFixes j
+    let rf := rf.map String.toList
+    let errJ (e : Option C06.RErr) : Json := match e with | some e => Json.str (rerrName e) | none => Json.null
+    let aligned := haplotagAligned fx srcs irg sample regions vs rf
+    let reads := haplotagReads fx srcs irg sample regions vs rf
+    let each := (srcs.flatMap (·.alns)).map fun a => match alnAlleles fx vs rf a with
+      | .ok r => ofList ofRV r
+      | .error e => Json.str (rerrName e)
+    Json.mkObj [
+      ("alns", match aligned with
+        | .ok l => ofList (fun (a : C06.AlignedQ) => Json.arr #[Json.str a.name, Json.bool a.supplementary, Json.bool a.reverse, ofInt a.refStart,
+            ofInt a.refEnd, ofList (fun t => ofRV (toRV t)) a.variants]) l
+        | .error _ => Json.null),
+      ("alnsErr", errJ (match aligned with | .error e => some e | .ok _ => none)),
+      ("reads", match reads with
+        | .ok l => ofList (fun (r : SetRead) => Json.arr #[Json.str r.name, ofInt r.refStart,
+            (match r.bx with | some b => Json.str b | none => Json.null), ofList ofRV r.variants]) l
+        | .error _ => Json.null),
+      ("readsErr", errJ (match reads with | .error e => some e | .ok _ => none)),
+      ("each", Json.arr each.toArray)]
+  | _, _, _, _, _, _ => badInput
+
 def handle (op : String) (j : Json) : Option Json :=
+  if op == "c10.detect" then some (detectAnswer j) else
   if op == "c10.varinfo" then
     match (getList? j "calls").bind (·.mapM call?) with
     | some calls =>
